@@ -397,15 +397,21 @@ SUBS = [
 
 @st.composite
 def hyper_histories(draw):
-    names = ["param", "rho", "translate", "rotate", "set_coord", "bc", "solve", "solve", "matrices", "replace_mesh"]
+    names = ["param", "rho", "thickness", "translate", "rotate", "set_coord", "bc", "solve", "solve", "matrices", "replace_mesh"]
     ops = []
-    for _ in range(draw(st.integers(3, 9))):
-        name = draw(st.sampled_from(names))
+    # two cases out of three start with: dynamic step, one invalidating change, dynamic step (the uniform draw rarely lines them up)
+    plan = [None] * draw(st.integers(3, 9))
+    if draw(st.integers(0, 2)) > 0:
+        plan = ["solve", draw(st.sampled_from(["param", "rho", "thickness", "translate", "rotate", "set_coord"])), "solve"] + plan[3:]
+    for forced in plan:
+        name = forced or draw(st.sampled_from(names))
         op = dict(op=name)
         if name == "param":
             op.update(value=draw(st.integers(4, 20)) / 2.0)
         elif name == "rho":
             op.update(value=draw(st.integers(1, 12)) / 4.0)
+        elif name == "thickness":
+            op.update(value=draw(st.sampled_from([0.25, 0.5, 2.0, 3.0])))
         elif name == "translate":
             op.update(t=[draw(st.integers(-4, 4)) / 2.0, draw(st.integers(-4, 4)) / 2.0, 0.0])
         elif name == "rotate":
@@ -444,7 +450,7 @@ def run_hyper_history(case, rec):
     simu = Simulations.HyperElastic(mesh, mat)
     simu.Solver_Set_Hyperbolic_Algorithm(case["dt"])
     slot = Slot(mesh)
-    st8 = dict(K=case["K"], rho=1.0, bc=case["bc0"])
+    st8 = dict(K=case["K"], rho=1.0, bc=case["bc0"], thickness=1.0)
     _hyper_bc(simu, mesh, slot.coord, st8["bc"])
     built = False
     inval = False
@@ -452,7 +458,7 @@ def run_hyper_history(case, rec):
 
     def fresh():
         m = gm.rebuild(slot.base, slot.coord)
-        f = Simulations.HyperElastic(m, Models.HyperElastic.NeoHookean(2, K=st8["K"]))
+        f = Simulations.HyperElastic(m, Models.HyperElastic.NeoHookean(2, K=st8["K"], thickness=st8["thickness"]))
         f.rho = st8["rho"]
         f.Solver_Set_Hyperbolic_Algorithm(case["dt"])
         if st8["bc"] is not None:
@@ -473,6 +479,9 @@ def run_hyper_history(case, rec):
         elif name == "rho":
             simu.rho = op["value"]
             st8["rho"] = op["value"]
+        elif name == "thickness":
+            mat.thickness = op["value"]
+            st8["thickness"] = op["value"]
         elif name == "translate":
             simu.mesh.Translate(*op["t"])
             slot.coord = slot.coord + np.array(op["t"], float)
@@ -495,7 +504,7 @@ def run_hyper_history(case, rec):
         elif name == "bc":
             _hyper_bc(simu, simu.mesh, slot.coord, op["seed"])
             st8["bc"] = op["seed"]
-        if name in ("translate", "rotate", "set_coord") and st8["bc"] is not None:
+        if name in ("translate", "rotate", "set_coord", "thickness") and st8["bc"] is not None:
             _hyper_bc(simu, simu.mesh, slot.coord, st8["bc"])  # conditions re-entered in the final configuration
         if name == "solve":
             if st8["bc"] is None:
@@ -524,7 +533,7 @@ def run_hyper_history(case, rec):
         # solution of the next step, which goes through K, M and the residual)
         if name == "solve":
             built = True
-        if built and name in ("param", "rho", "translate", "rotate", "set_coord", "replace_mesh"):
+        if built and name in ("param", "rho", "thickness", "translate", "rotate", "set_coord", "replace_mesh"):
             inval = True
         rec.label("op:" + name)
         prev = name
